@@ -452,6 +452,17 @@ class CardInterp:
         return join(self.ev(e.body, env), self.ev(e.orelse, env))
 
     def comp(self, e, env, make):
+        if len(e.generators) == 2 and not e.generators[0].ifs and not e.generators[1].ifs and \
+                isinstance(e.generators[0].target, ast.Name) and isinstance(e.generators[1].iter, ast.Name) and \
+                e.generators[1].iter.id == e.generators[0].target.id:
+            # [x for chunk in chunks for x in chunk]: the chunks laid end to end
+            outer = self.ev(e.generators[0].iter, env)
+            el = outer.elem if outer.kind in ("list", "gen") else None
+            if el is not None and el.kind == "list" and isinstance(el.src, tuple) and el.src[0] == "chunk":
+                env2 = dict(env)
+                self.bind(e.generators[1].target, el.elem if el.elem is not None else UNKNOWN, env2)
+                return make(el.src[1], env2, e.generators[1])
+            return UNKNOWN
         if len(e.generators) != 1:
             return UNKNOWN
         g = e.generators[0]
@@ -582,7 +593,11 @@ class CardInterp:
                     args[0].src[0] == "flat":
                 return args[0]
             it = self.iterable(args[0])
-            return V("list", it.n, it.elem)
+            el = it.elem
+            if fs in ("sorted", "reversed") and el is not None:
+                # the elements no longer stand at the position of their row
+                el = V(el.kind, el.n, el.elem, el.shape, el.const, src=("reordered", el.src))
+            return V("list", it.n, el)
         if fs in ("chain.from_iterable", "itertools.chain.from_iterable") and len(args) == 1:
             a = args[0]
             el = a.elem if a.kind in ("gen", "list") else None
